@@ -1089,3 +1089,34 @@ func (c *Ctx) inmemGlobPlain(r *inmemRoles, rule string) {
 		c.Decide(rule, fn, "ListKeys matches with the glob library", nil, false, "ListKeys does not compile the pattern with the glob library the contract names")
 	}
 }
+
+// everyBatchRecordWritten is C02.R7: in PutMany each record of the batch is stored (no iteration of the loop over
+// the batch goes round without a store into the table).
+func (c *Ctx) everyBatchRecordWritten(r *inmemRoles, rule string) {
+	fn := r.storage["PutMany"]
+	if len(fn.Params) < 3 {
+		c.Fatalf("PutMany: unexpected signature")
+	}
+	batch := fn.Params[2]
+	n := 0
+	// the element load of the batch marks an iteration
+	ir.Instrs(fn, func(in ssa.Instruction) {
+		ia, ok := in.(*ssa.IndexAddr)
+		if !ok || ir.Resolve(ia.X) != ssa.Value(batch) {
+			return
+		}
+		n++
+		isStore := func(x ssa.Instruction) bool { return r.recsUpdate(x) != nil }
+		c.NoPath(rule, "every record of the batch is stored", in, ir.Query{Fn: fn, From: in, Block: isStore,
+			Target: func(x ssa.Instruction) bool {
+				if ir.IsExit(x) {
+					return true
+				}
+				y, isIA := x.(*ssa.IndexAddr)
+				return isIA && x != in && ir.Resolve(y.X) == ssa.Value(batch) || x == in
+			}}, "a record of the batch can be skipped (no store, no new version, no wake-up): a write that leaves the version unchanged lets a stale CasByVersion succeed")
+	})
+	if n == 0 {
+		c.Decide(rule, fn, "PutMany walks the batch", nil, false, "PutMany does not iterate over the records it was given")
+	}
+}
